@@ -1,0 +1,122 @@
+//go:build verif
+// +build verif
+
+package masswallet
+
+import (
+	"sort"
+
+	"github.com/massnetorg/mass-core/wire"
+	mwdb "massnet.org/mass-wallet/masswallet/db"
+	"massnet.org/mass-wallet/masswallet/keystore"
+	"massnet.org/mass-wallet/masswallet/txmgr"
+)
+
+// This file only exists under the `verif` build tag. It exposes thin
+// pass-throughs to unexported follower entry points and read-only accessors
+// to volatile state for the verification harness in /verif. It adds no
+// behaviour of its own.
+
+// VerifProcessBlock is what handle() does with one item of queueBlock.
+func (w *WalletManager) VerifProcessBlock(b *wire.MsgBlock) error {
+	return w.ntfnsHandler.processConnectedBlock(b)
+}
+
+// VerifProcessTx is what handle() does with one item of queueMsgTx.
+func (w *WalletManager) VerifProcessTx(tx *wire.MsgTx) error {
+	return w.ntfnsHandler.proccessReceivedTx(tx)
+}
+
+// VerifHandlerStart runs NtfnsHandler.Start without listener registration.
+func (w *WalletManager) VerifHandlerStart() error { return w.ntfnsHandler.Start() }
+
+// VerifHandlerStop runs NtfnsHandler.Stop.
+func (w *WalletManager) VerifHandlerStop() { w.wg.Add(1); w.ntfnsHandler.Stop(); w.wg.Wait() }
+
+// VerifOnBlockConnected / VerifOnTransactionReceived are the listener callbacks.
+func (w *WalletManager) VerifOnBlockConnected(b *wire.MsgBlock) error {
+	return w.ntfnsHandler.OnBlockConnected(b)
+}
+func (w *WalletManager) VerifOnTransactionReceived(tx *wire.MsgTx) error {
+	return w.ntfnsHandler.OnTransactionReceived(tx)
+}
+
+// VerifAsyncImport / VerifAsyncRemove run one background step synchronously.
+// They must only be used when handle() is not running (suspend would block).
+func (w *WalletManager) VerifAsyncImport(walletId string) (bool, error) {
+	return w.ntfnsHandler.asyncImport(walletId)
+}
+func (w *WalletManager) VerifAsyncRemove(walletId string) error {
+	return w.ntfnsHandler.asyncRemove(walletId)
+}
+
+// VerifInitTaskChan creates the task channel as worker() would (no wallets queued).
+func (w *WalletManager) VerifInitTaskChan() {
+	if w.ntfnsHandler.taskChan == nil {
+		w.ntfnsHandler.taskChan = NewWalletTaskChan(0)
+	}
+}
+
+// VerifQueueLens reports len(queueBlock), len(queueMsgTx), len(taskChan.C) (-1 if nil).
+func (w *WalletManager) VerifQueueLens() (int, int, int) {
+	h := w.ntfnsHandler
+	t := -1
+	if h.taskChan != nil {
+		t = len(h.taskChan.C)
+	}
+	return len(h.queueBlock), len(h.queueMsgTx), t
+}
+
+// VerifVolatile is a snapshot of the handler's in-memory state.
+type VerifVolatile struct {
+	BestHash   wire.Hash
+	BestHeight uint64
+	Mempool    []wire.Hash
+	Expired    map[uint64][]wire.Hash
+	UsedCache  []string
+	Current    string
+}
+
+func (w *WalletManager) VerifVolatile() *VerifVolatile {
+	h := w.ntfnsHandler
+	h.memMtx.Lock()
+	defer h.memMtx.Unlock()
+	v := &VerifVolatile{
+		BestHash:   h.bestBlock.Hash,
+		BestHeight: h.bestBlock.Height,
+		Expired:    make(map[uint64][]wire.Hash),
+		Current:    w.CurrentWallet(),
+	}
+	for k := range h.mempool {
+		v.Mempool = append(v.Mempool, k)
+	}
+	sortHashes(v.Mempool)
+	for ht, m := range h.expiredMempool {
+		var l []wire.Hash
+		for k := range m {
+			l = append(l, k)
+		}
+		sortHashes(l)
+		v.Expired[ht] = l
+	}
+	for k := range w.usedCache.Items() {
+		v.UsedCache = append(v.UsedCache, k)
+	}
+	sort.Strings(v.UsedCache)
+	return v
+}
+
+func sortHashes(l []wire.Hash) {
+	sort.Slice(l, func(i, j int) bool { return l[i].String() < l[j].String() })
+}
+
+func (w *WalletManager) VerifDB() mwdb.DB                                { return w.db }
+func (w *WalletManager) VerifKeystoreManager() *keystore.KeystoreManager { return w.ksmgr }
+func (w *WalletManager) VerifTxStore() *txmgr.TxStore                    { return w.txStore }
+func (w *WalletManager) VerifUtxoStore() *txmgr.UtxoStore                { return w.utxoStore }
+func (w *WalletManager) VerifSyncStore() *txmgr.SyncStore                { return w.syncStore }
+
+// VerifExistsUnminedTx is the store read API used by filterTx for pending parents.
+func (w *WalletManager) VerifExistsUnminedTx(hash *wire.Hash) (*wire.MsgTx, error) {
+	return w.existsUnminedTx(hash)
+}
